@@ -240,7 +240,9 @@ func verifSameValues(on, off *verifNode, cls map[string]string) {
 
 func H_c15() {
 	verifConfigSym()
-	SetRedactNamespaces(false)
+	if verifParam("nsFlag") != "sym" {
+		SetRedactNamespaces(false)
+	}
 	SetRedactNumbers(false)
 	SetRedactBooleans(false)
 	SetRedactIPs(false)
